@@ -70,6 +70,35 @@ func (c *Context) GetHeader(key string) string {
 	return vs[0]
 }
 
+func (c *Context) Query(key string) string {
+	v, _ := c.GetQuery(key)
+	return v
+}
+
+func (c *Context) DefaultQuery(key, def string) string {
+	if v, ok := c.GetQuery(key); ok {
+		return v
+	}
+	return def
+}
+
+func (c *Context) Param(key string) string {
+	v, _ := c.Params.Get(key)
+	return v
+}
+
+func (c *Context) PostForm(key string) string {
+	v, _ := c.GetPostForm(key)
+	return v
+}
+
+func (c *Context) GetPostFormArray(key string) ([]string, bool) {
+	values, ok := c.Request.PostForm[key]
+	return values, ok && len(values) > 0
+}
+
+func (c *Context) AbortWithStatus(code int) { c.StatusCode = code }
+
 func (c *Context) GetPostForm(key string) (string, bool) {
 	if values, ok := c.Request.PostForm[key]; ok && len(values) > 0 {
 		return values[0], true
